@@ -83,7 +83,16 @@ fn gen_balanced(rng: &mut Rng) -> Module {
     let mut main = Function::default();
     let n = 1 + rng.usize(4);
     for i in 0..n {
-        let e = match rng.below(6) {
+        let e = match rng.below(9) {
+            // comparisons the language leaves unordered (distinct strings of equal length): the
+            // answer must not depend on where the allocator happened to put the objects
+            6 => c(CardBody::Less(bin(Card::string_card(["alpha", "bravo", "delta"][rng.usize(3)]), Card::string_card(["gamma", "omega", "sigma"][rng.usize(3)])))),
+            7 => Card::call_function(
+                ["std.sorted", "std.min", "std.max"][rng.usize(3)],
+                vec![Card::call_function("words", vec![Card::scalar_int(rng.range(2, 7))])],
+            ),
+            // a value card that produces nothing: the assignment pops an empty stack
+            8 => Card::composite_card("nothing", vec![c(CardBody::Comment("no value".into()))]),
             0 => Card::scalar_int(rng.range(0, 100)),
             1 => Card::string_card(format!("balanced{}", rng.below(1000))),
             2 => c(CardBody::CreateTable),
@@ -95,6 +104,23 @@ fn gen_balanced(rng: &mut Rng) -> Module {
     }
     let mut m = Module::default();
     m.functions.push(("main".into(), main));
+    // words(n): a table of n distinct strings of equal length
+    m.functions.push((
+        "words".into(),
+        Function::default().with_arg("n").with_cards(vec![
+            Card::set_var("t", c(CardBody::CreateTable)),
+            c(CardBody::AppendTable(bin(Card::string_card("kilo"), Card::read_var("t")))),
+            c(CardBody::AppendTable(bin(Card::string_card("lima"), Card::read_var("t")))),
+            c(CardBody::AppendTable(bin(Card::string_card("echo"), Card::read_var("t")))),
+            c(CardBody::Repeat(Box::new(cao_lang::compiler::Repeat {
+                i: None,
+                n: Card::read_var("n"),
+                body: c(CardBody::AppendTable(bin(Card::string_card("zulu"), Card::read_var("t")))),
+            }))),
+            c(CardBody::AppendTable(bin(Card::string_card("alfa"), Card::read_var("t")))),
+            Card::return_card(Card::read_var("t")),
+        ]),
+    ));
     // work(n): builds a table with n entries and returns it
     m.functions.push((
         "work".into(),
